@@ -276,6 +276,26 @@ func ruleR13(c *Ctx, prop string) {
 	// D6: count/dims gate
 	ok, why := c.checkD6(di)
 	c.decide(ok, "R13", "R13:D6", c.pos(di.newCall.Pos()), "every path to tensor construction passes rejecting checks: each dim >= 1 and element count == product of dims", why)
+	// D6b: the gate stands before EVERY success return, not only before the construction found above: a
+	// second way out (a special path for scalars, for empty tensors, ...) that skips it loads a payload of
+	// the wrong length as different values
+	if ok && di.valuesPhi != nil {
+		seeds := map[ssa.Value]string{di.valuesPhi: "values"}
+		n := 0
+		for _, r := range returnsOf(di.fn) {
+			if len(r.Results) == 0 || isNilConst(r.Results[0]) {
+				continue
+			}
+			n++
+			countEq, _ := c.gateAt(di.fn, r.Block(), seeds, 0)
+			key := fmt.Sprintf("R13:D6:return#%d", n)
+			c.decide(countEq, "R13", key, c.pos(r.Pos()), "this success return is dominated by the rejecting element-count == product-of-dims check",
+				"a tensor is returned here without the rejecting comparison of the number of decoded elements with the product of the declared dims having been passed: on this path a payload of the wrong length is loaded (as fewer / other values) instead of being refused")
+		}
+		if n == 0 {
+			c.undecided("R13", "R13:D6:returns", c.pos(di.fn.Pos()), "no success return found in "+fname(di.fn))
+		}
+	}
 }
 
 // checkD2: getter = `if len(tp.<F>) > 0 { return conv(tp.Get<F>()) }; return raw(tp.RawData)`.
